@@ -12,7 +12,6 @@ import (
 	"os"
 	"regexp"
 	"sort"
-	"strconv"
 	"strings"
 )
 
@@ -1220,7 +1219,7 @@ func viewForalls(x SExpr) []*SQuant {
 			lo, ok1 := y.Lo.(*SLit)
 			hi, ok2 := y.Hi.(*SLit)
 			if ok1 && ok2 && !lo.Bool && !hi.Bool {
-				if n, err := strconv.ParseInt(hi.Val, 0, 64); err == nil && n >= 65536 {
+				if n, ok := new(big.Int).SetString(hi.Val, 0); ok && n.Cmp(big.NewInt(65536)) >= 0 {
 					return []*SQuant{y}
 				}
 			}
